@@ -1499,6 +1499,26 @@ impl<'a> BackendWriteTransaction<'a> {
         Ok(())
     }
 
+    /// Of the names an entry releases, keep those that still resolve to that entry. Within
+    /// one operation (a replication apply changes many entries at once) another entry may
+    /// already have taken a name this one gives up; removing it would erase the new owner.
+    fn name2uuid_still_owned(
+        &mut self,
+        names: std::collections::BTreeSet<String>,
+        uuid: Uuid,
+    ) -> Result<std::collections::BTreeSet<String>, OperationError> {
+        let mut owned = std::collections::BTreeSet::new();
+        for name in names {
+            match self.idlayer.name2uuid(name.as_str())? {
+                Some(owner) if owner != uuid => {}
+                _ => {
+                    owned.insert(name);
+                }
+            }
+        }
+        Ok(owned)
+    }
+
     // Should take a mut index set, and then we write the whole thing back
     // in a single stripe.
     //
@@ -1569,6 +1589,7 @@ impl<'a> BackendWriteTransaction<'a> {
 
             // Write the changes out to the backend
             if let Some(rem) = n2u_rem {
+                let rem = self.name2uuid_still_owned(rem, uuid)?;
                 self.idlayer.write_name2uuid_rem(rem)?
             }
 
@@ -1615,6 +1636,7 @@ impl<'a> BackendWriteTransaction<'a> {
             self.idlayer.write_name2uuid_add(e_uuid, add)?
         }
         if let Some(rem) = n2u_rem {
+            let rem = self.name2uuid_still_owned(rem, e_uuid)?;
             self.idlayer.write_name2uuid_rem(rem)?
         }
 
